@@ -42,6 +42,13 @@ Record session_opts : Type := mkSess {
   d_keyspace : option Z       (* session keyspace (for the speculative plan only) *)
 }.
 
+(* Where the profile's / the session's consistency level comes from: ExecutionProfile.__init__ records whether a level
+   was passed (_consistency_level_explicit; default LOCAL_ONE = 10 otherwise) and Cluster._set_default_dbaas_consistency
+   (run by connect() and add_execution_profile()) replaces only levels that were NOT chosen by LOCAL_QUORUM = 6 when the
+   cluster is a DBaaS (Astra) one; the legacy session default is LOCAL_QUORUM there until the user assigns one. *)
+Definition configured_cl (dbaas : bool) (chosen : option Z) : Z :=
+  match chosen with Some v => v | None => if dbaas then 6 else 10 end.
+
 (* the `timeout` argument of execute(): _NOT_SET or an explicit value (None = no timeout) *)
 Inductive targ : Type := TNotSet | TSet (v : option Z).
 
